@@ -63,8 +63,15 @@ type sNode struct {
 	Type    string  `xml:"type,attr,omitempty"`
 	Lang    string  `xml:"http://www.w3.org/XML/1998/namespace lang,attr,omitempty"`
 	IV      string  `xml:"iv,attr,omitempty"`
-	Text    string  `xml:",chardata"`
-	Kids    []sNode `xml:",any"`
+	// attributes of the value's own outermost tag that are qualified by a
+	// namespace and share their local name with stanza attributes: they are
+	// not the attributes of that name which a supplied start element may carry
+	QID   string  `xml:"urn:verif:vattr id,attr,omitempty"`
+	QType string  `xml:"urn:verif:vattr type,attr,omitempty"`
+	QLang string  `xml:"urn:verif:vattr lang,attr,omitempty"`
+	QM    string  `xml:"urn:verif:vattr m,attr,omitempty"`
+	Text  string  `xml:",chardata"`
+	Kids  []sNode `xml:",any"`
 }
 
 // mNode is the xmlstream.Marshaler form.
@@ -84,6 +91,7 @@ func (w wNode) TokenReader() xml.TokenReader { return w.n.Reader() }
 // ---------------------------------------------------------------- case model
 
 type call struct {
+	ownAttrs bool // EncodeElement, struct form: the value has qualified attributes of its own
 	idx      int
 	entry    string // see entries
 	form     string // tokens struct marshaler writerto reader
@@ -463,6 +471,23 @@ func genCall(t *rapid.T, idx int, ns, s2sFrom string, inHandler bool) *call {
 				c.sval = toSNode(inner)
 				c.sval.M = ""
 				c.sval.IV = "inner"
+				if rapid.IntRange(0, 2).Draw(t, "valueattrs") == 0 {
+					// the value brings qualified attributes of its own
+					q := rapid.SliceOfN(rapid.SampledFrom([]string{"id", "type", "lang", "m"}), 1, 4).Draw(t, "qattrs")
+					for _, l := range q {
+						switch l {
+						case "id":
+							c.sval.QID = "vown-" + mark
+						case "type":
+							c.sval.QType = "vown"
+						case "lang":
+							c.sval.QLang = "tlh"
+						case "m":
+							c.sval.QM = "vown"
+						}
+					}
+					c.ownAttrs = true
+				}
 				c.expect = wire.ExpectTopLevel(stdTree(c.sval, &st), ns, s2sFrom)
 			} else {
 				c.node = inner
@@ -1121,6 +1146,9 @@ func classify(tc tcase) (bool, []string) {
 	multiWrite, withStart, completion := false, false, false
 	for _, c := range tc.all() {
 		classes = append(classes, "entry-"+c.entry, "form-"+c.form)
+		if c.ownAttrs {
+			classes = append(classes, "value-with-qualified-attributes-of-its-own")
+		}
 		if c.flushAt >= 0 {
 			classes = append(classes, "tokenwriter-flushed-inside-the-element")
 		}
